@@ -837,6 +837,74 @@ impl<'a> Gen<'a> {
         }
     }
 
+    /// Abrupt exits through nested scopes: a function (or generator) whose body nests 1-3 scope
+    /// kinds (block, for-let, for-of, for-in, switch, with, catch clause, inner try/finally) inside
+    /// `L0: for (let ...) { try { ... } finally|catch { ... } }`, every scope declaring a binding that is
+    /// captured by a thunk kept in `__caps`, and an abrupt completion (return / break L0 / continue L0 /
+    /// throw / break of an inner label) taken at a tape-chosen call argument. The thunks are called at
+    /// program end, so an environment that is not popped (or popped twice) on the way out shows up
+    /// as a wrong captured value. Generators are additionally closed early from a `for-of` `break`.
+    fn stmt_scope_exit(&mut self, out: &mut String) {
+        if !self.spend(80) {
+            return self.stmt_print(out);
+        }
+        self.label("scope-exit");
+        self.kinds.insert("scope-exit");
+        self.uses_caps = true;
+        let f = self.fresh("ae");
+        let is_gen = self.t.chance(70);
+        let levels = 1 + self.t.below(3);
+        let when = self.t.below(3);
+        let abrupt = match self.t.below(7) {
+            0 | 1 => "return 'r' + n".to_string(),
+            2 => "break L0".to_string(),
+            3 => "continue L0".to_string(),
+            4 => "throw 't' + n".to_string(),
+            5 => "break L1".to_string(),
+            _ => "return".to_string(),
+        };
+        let y = |on: bool, v: &str| if on { format!("yield {v}; ") } else { String::new() };
+        let mut inner = format!("n++; {}if (p === {when}) {abrupt}; n += 10;\n", y(is_gen, "'y' + n"));
+        for k in 0..levels {
+            let id = self.fresh("s");
+            let cap = |v: &str| format!("__caps.push(() => {v});");
+            let kinds = if self.strict { 7 } else { 8 };
+            inner = match self.t.below(kinds) {
+                0 => format!("{{\nlet {id} = 'b{k}' + n; {}\n{inner}}}\n", cap(&id)),
+                1 => format!("for (let {id} = 0; {id} < 2; {id}++) {{\n{}\n{inner}}}\n", cap(&id)),
+                2 => format!("for (const {id} of ['o{k}', 'p{k}']) {{\n{}\n{inner}}}\n", cap(&id)),
+                3 => format!("for (const {id} in {{ k{k}: 1, m{k}: 2 }}) {{\n{}\n{inner}}}\n", cap(&id)),
+                4 => format!("switch (1) {{\ncase 1:\nlet {id} = 'w{k}' + n; {}\n{inner}}}\n", cap(&id)),
+                5 => format!("try {{ throw 'c{k}' + n; }} catch ({id}) {{\n{}\n{inner}}}\n", cap(&id)),
+                6 => format!("try {{\nlet {id} = 'i{k}' + n; {}\n{inner}}} finally {{\nlet {id}f = 'f{k}' + n; {} n += 100;\n}}\n", cap(&id), cap(&format!("{id}f"))),
+                _ => format!("with ({{ {id}: 'h{k}' }}) {{\n{}\n{inner}}}\n", cap(&id)),
+            };
+            self.label("scope-exit-level");
+        }
+        let handler = match self.t.below(4) {
+            0 | 1 => format!("finally {{\nlet zf = 'f' + n; __caps.push(() => zf); {}n += 1000;\n}}", y(is_gen && self.t.bool(), "'yf'")),
+            2 => "catch (e) {\nlet zc = 'c' + e; __caps.push(() => zc); n += 2000;\n}".to_string(),
+            _ => {
+                let over = *self.t.pick(&["", "if (p === 2) continue L0;", "if (p === 2) break L0;", "if (p === 1) return 'fr';"]);
+                format!("catch (e) {{\nlet zc = 'c' + e; __caps.push(() => zc);\n}} finally {{\nlet zf = 'f' + n; __caps.push(() => zf); {over}\n}}")
+            }
+        };
+        let star = if is_gen { "*" } else { "" };
+        out.push_str(&format!(
+            "function{star} {f}(p) {{\nvar n = 0;\nL0: for (let i = 0; i < 2; i++) {{\n__caps.push(() => i);\ntry {{\nL1: {{\n{inner}}}\n}} {handler}\nlet za = 'a' + n; __caps.push(() => za);\n}}\nlet zt = 't' + n; __caps.push(() => zt);\nreturn n;\n}}\n"
+        ));
+        for p in 0..3 {
+            if is_gen {
+                let brk = self.t.below(4);
+                out.push_str(&format!(
+                    "try {{ var c{f} = 0; for (var v{f} of {f}({p})) {{ print(show(v{f})); if (++c{f} === {brk}) break; }} print(c{f}); }} catch (e) {{ print('threw', show(e)); }}\n"
+                ));
+            } else {
+                out.push_str(&format!("try {{ print(show({f}({p}))); }} catch (e) {{ print('threw', show(e)); }}\n"));
+            }
+        }
+    }
+
     fn stmt_print(&mut self, out: &mut String) {
         let d = self.o.max_depth;
         if self.t.chance(100) {
@@ -1029,8 +1097,10 @@ impl<'a> Gen<'a> {
         let n = 1 + self.t.below(3);
         let saved = self.in_switch_case;
         let saved_loops = std::mem::take(&mut self.loops);
+        let mut had_default = false;
         for k in 0..n {
-            if self.t.chance(40) {
+            if !had_default && self.t.chance(40) {
+                had_default = true;
                 out.push_str("default:\n");
             } else {
                 out.push_str(&format!("case {}:\n", self.t.pick(INTS)));
@@ -1777,9 +1847,10 @@ impl<'a> Gen<'a> {
             4,                   // return/throw
             o.w_destructure,     // custom iterables (iterator protocol, closing)
             o.w_closure / 2,     // captured block-scoped binding (thunk called at program end)
+            o.w_try / 2,         // abrupt exits through nested capturing scopes
         ];
         let mut choice = self.t.weighted(&weights);
-        if self.in_finally > 0 && self.o.excl_f17_catch_in_finally && matches!(choice, 6 | 9 | 11 | 16 | 7 | 8 | 19) {
+        if self.in_finally > 0 && self.o.excl_f17_catch_in_finally && matches!(choice, 6 | 9 | 11 | 16 | 7 | 8 | 19 | 21) {
             // F17: an exception caught inside a finally block corrupts the pending completion
             // (templates 6/9/11/16 contain try/catch; 7/8 call functions right away, and a callee
             // that throws would be caught by an enclosing catch of this function)
@@ -1807,6 +1878,7 @@ impl<'a> Gen<'a> {
             17 => self.stmt_collections(out),
             19 => self.stmt_iterable(out),
             20 => self.stmt_capture(out),
+            21 => self.stmt_scope_exit(out),
             _ => self.stmt_return_or_throw(out),
         }
     }
